@@ -31,3 +31,7 @@ Definition unmarshal_text_ref (m_stringToLevel : list (bytes * Z)) (level : Z) (
   | Some l => (None, l, tr_)
   | None => (Some tt, level, tr_ ++ [EvWarnUnknown text])
   end.
+
+(* Level.MarshalText: the name registered for the level, an error when there is none *)
+Definition marshal_text_ref (m_levelToString : list (Z * bytes)) (level : Z) : bytes * option unit :=
+  match lookupZ m_levelToString level with Some s => (s, None) | None => ([], Some tt) end.
